@@ -50,54 +50,8 @@ fn mds12_unit_vectors_contract() {
     }
 }
 
-/// reference dot product of row r of the documented circulant matrix with the raw state words, reduced
-/// mod M independently of the code (2^64 = 2^32 - 1 mod M; the entries are at most 26, so the only
-/// multipliers are by small constants)
-fn ref_row(raw: &[u64; 12], r: usize) -> u64 {
-    const ROW: [u64; 12] = [7, 23, 8, 26, 13, 10, 9, 7, 6, 22, 21, 8];
-    let mut sum: u128 = 0;
-    let mut j = 0;
-    while j < 12 {
-        sum += (ROW[(j + 12 - r) % 12] as u128) * (raw[j] as u128);
-        j += 1;
-    }
-    let hi = sum >> 64; // < 2^9
-    let lo = (sum as u64) as u128;
-    let mut t = lo + (hi << 32) - hi; // < 2^65
-    let m = M as u128;
-    if t >= m { t -= m; }
-    if t >= m { t -= m; }
-    if t >= m { t -= m; }
-    t as u64
-}
-
-/// full matrix product, one output row per harness: for every state of canonical elements,
-/// mds_multiply(state)[r] == sum_j MDS[r][j] * state[j] (mod M)
-fn row_product(r: usize) {
-    let raw: [u64; 12] = kani::any();
-    let mut state = [BaseElement::ZERO; 12];
-    let mut i = 0;
-    while i < 12 {
-        kani::assume(raw[i] < M);
-        state[i] = BaseElement::from_mont(raw[i]);
-        i += 1;
-    }
-    mds_multiply(&mut state);
-    assert!(state[r].inner() == ref_row(&raw, r));
-}
-
-macro_rules! rowp {
-    ($name:ident, $r:expr) => {
-        #[kani::proof]
-        #[kani::unwind(13)]
-        fn $name() {
-            row_product($r);
-        }
-    };
-}
-rowp!(mds12_row0_product_contract, 0);
-rowp!(mds12_row5_product_contract, 5);
-rowp!(mds12_row11_product_contract, 11);
+// (a full row-product contract against the dot product with the circulant row was tried: one output row over a
+// fully symbolic state does not finish in 3600 s; see DESIGN.md 9.2)
 
 #[kani::proof]
 #[kani::unwind(13)]
